@@ -33,7 +33,7 @@ ASSUMPTIONS = [
     "jax runs with jax_enable_x64=True (as the repository's conftest)",
     "BlackJAX with float32 under x64 is excluded (xfail in the repository's own tests: known upstream dtype promotion in the kernel)",
 ]
-REQUIRED_COUNTERS = ["grid_cells_judged", "helper_cells_judged", "populations_watched", "flow_outputs_consumed"]
+REQUIRED_COUNTERS = ["grid_cells_judged", "carried_evidence_conversions", "helper_cells_judged", "populations_watched", "flow_outputs_consumed"]
 EXHAUSTIVE = True
 
 NS = ["numpy", "torch", "jax"]
@@ -150,9 +150,26 @@ def run_grid(case, counters, viol, nontrivial):
                             bad.append("log_w changed")
                         if not np.isclose(float(to_np(r.log_evidence)), float(to_np(s.log_evidence)), rtol=1e-5, atol=1e-6):
                             bad.append("log_evidence changed")
+                        # a selection carries its parent's evidence (C16); converting it must preserve that value too
+                        sl = s[2:6]
+                        counters["carried_evidence_conversions"] += 1
+                        try:
+                            if op == "to_namespace":
+                                r2 = sl.to_namespace(xb) if req is None else sl.to_namespace(xb, dtype=req)
+                            elif op == "from_samples":
+                                r2 = None  # from_samples builds a new set from the fields; the evidence is recomputed by design
+                            else:
+                                r2 = sl.to_numpy() if req is None else sl.to_numpy(dtype=req)
+                            if r2 is not None:
+                                for fld in ("log_evidence", "log_evidence_error"):
+                                    v0, v1 = getattr(sl, fld), getattr(r2, fld)
+                                    if (v0 is None) != (v1 is None) or (v0 is not None and not np.isclose(float(to_np(v0)), float(to_np(v1)), rtol=1e-5, atol=1e-6)):
+                                        bad.append(f"{fld} carried by a selection changed {None if v0 is None else float(to_np(v0))} -> {None if v1 is None else float(to_np(v1))}")
+                        except Exception as exc:  # noqa: BLE001
+                            bad.append(f"conversion of a selection raises {type(exc).__name__}: {str(exc)[:100]}")
                     if bad:
                         first = bad[0]
-                        key = "width-changed" if "width" in first else ("values-changed" if "values" in first else ("namespace-wrong" if "namespace" in first or " is a " in first else ("field-presence-changed" if "presence" in first else "other")))
+                        key = "carried-evidence-changed" if "carried" in first else "width-changed" if "width" in first else ("values-changed" if "values" in first else ("namespace-wrong" if "namespace" in first or " is a " in first else ("field-presence-changed" if "presence" in first else "other")))
                         viol.append({"mech": f"C15/{op}-{key}", "detail": f"{cell}: {bad}"})
                     if a != b or w0 != (32 if a == "torch" else 64):
                         nontrivial.add(cell)
